@@ -52,10 +52,11 @@ Theorem C12_signature_L3 : func_space ML3 = ML3 /\ func_space MNone = ML3.
 Proof. exact func_space_keeps_L3. Qed.
 Print Assumptions C12_signature_L3.
 
-(* (ii) one application of RealizeMemrefCasts on a flat block, from ANY state and in any context that
-   satisfies the stated alias facts: under Safe (sound use classification, order_ok, no foreign access
-   to the source buffer inside the block) every operation observes what it observed in the original
-   program and every buffer except the new allocation ends with the same contents. *)
+(* (ii) one application of the REPAIRED RealizeMemrefCasts (fix: commits for F22 and F23) on a flat
+   block, from ANY state and in any context that satisfies the stated alias facts, for ANY order of
+   readers, writers and accumulating users of the cast: if no other name of the source buffer is used
+   inside the block, every operation observes what it observed in the original program and every buffer
+   except the new allocation ends with the same contents. *)
 Theorem C12_realize_coherent :
   forall (trips : nat -> nat) (d src td ts s0 : nat) (others : list nat) (post : list item) (s : state),
     (forall v, alias s v <> d) -> alias s src = alias s s0 ->
@@ -63,26 +64,29 @@ Theorem C12_realize_coherent :
     (forall v, alias s v = alias s s0 -> In v others) ->
     safe_block d others post = true ->
     let t := exec_list trips (ICast d src td ts :: post) s in
-    let t' := exec_list trips (IAlloc d :: fst (ins_list d s0 false false post)) s in
+    let t' := exec_list trips (IAlloc d :: fst (ins_list d s0 false false false post)) s in
     trace t = trace t' /\ forall b, b <> d -> memo t b = memo t' b.
 Proof. exact realize_coherent. Qed.
 Print Assumptions C12_realize_coherent.
 
 Example C12_realize_nonvacuous :
-  safe_block 2%nat [0%nat] [IOp 0 [(2, KIn); (3, KOut)]; IOp 1 [(2, KOut)]; IOp 2 [(2, KIn); (4, KOut)]]%nat = true /\
-  fst (ins_list 2%nat 0%nat false false [IOp 0 [(2, KIn); (3, KOut)]; IOp 1 [(2, KOut)]; IOp 2 [(2, KIn); (4, KOut)]]%nat) =
-    [ICopy 0 2; IOp 0 [(2, KIn); (3, KOut)]; IOp 1 [(2, KOut)]; ICopy 2 0; IOp 2 [(2, KIn); (4, KOut)]]%nat.
+  safe_block 2%nat [0%nat] [IOp 0 [(2, KOut)]; IOp 1 [(2, KIn); (3, KOut)]; IOp 2 [(2, KOut)]]%nat = true /\
+  fst (ins_list 2%nat 0%nat false false false [IOp 0 [(2, KOut)]; IOp 1 [(2, KIn); (3, KOut)]; IOp 2 [(2, KOut)]]%nat) =
+    [IOp 0 [(2, KOut)]; ICopy 2 0; ICopy 0 2; IOp 1 [(2, KIn); (3, KOut)]; IOp 2 [(2, KOut)]; ICopy 2 0]%nat.
 Proof. exact realize_coherent_nonvacuous. Qed.
 Print Assumptions C12_realize_nonvacuous.
 
-(* (ii) refutations: the property does not hold for all orders of readers and writers *)
-Theorem C12_realize_refuted_order :
-  exists p, bad_order p = true /\ acc_output p = false /\
-            trace (run (realize_all p)) <> trace (run p).
-Proof. exists w_order. destruct w_order_refutes as [A [B [_ C]]]. auto. Qed.
-Print Assumptions C12_realize_refuted_order.
+(* (ii) the former refutation witnesses of findings F22 (write, read, write through one shared cast) and
+   F23 (accumulating output): the model of the repaired pass emits the flush / the copy-in and both
+   programs now run coherently *)
+Theorem C12_F22_repaired :
+  trace (run (realize_all w_order)) = trace (run w_order) /\
+  (forall b, In b [0; 1]%nat -> memo (run (realize_all w_order)) b = memo (run w_order) b).
+Proof. exact (proj2 w_order_repaired). Qed.
+Print Assumptions C12_F22_repaired.
 
-Theorem C12_realize_refuted_accumulate :
-  exists p, acc_output p = true /\ trace (run (realize_all p)) <> trace (run p).
-Proof. exists w_acc. destruct w_acc_refutes as [A [_ C]]. auto. Qed.
-Print Assumptions C12_realize_refuted_accumulate.
+Theorem C12_F23_repaired :
+  trace (run (realize_all w_acc)) = trace (run w_acc) /\
+  (forall b, In b [0; 1]%nat -> memo (run (realize_all w_acc)) b = memo (run w_acc) b).
+Proof. exact (proj2 w_acc_repaired). Qed.
+Print Assumptions C12_F23_repaired.
